@@ -286,7 +286,7 @@ def run(ctx, report: Report) -> None:
     descendants_table(ctx, r2)
 
     # ---- R6 (the whole pipeline by interpretation, bounded) --------------------------------------------------------------
-    r6 = report.rule('C19-R6', 'text pseudo-classes on a tree with split text, comments, CDATA, an iframe and text-less elements (whole pipeline; bounded)', floor=6)
+    r6 = report.rule('C19-R6', 'text pseudo-classes on a tree with split text, comments, CDATA, an iframe and text-less elements (whole pipeline; bounded)', floor=8)
     from .e2ematch import text_table
     text_table(ctx, r6)
 
